@@ -64,6 +64,7 @@ type Config struct {
 	QueryTimeout int // ms
 	Deadline     time.Time
 	Abstract     bool // abstract mode for non-linear LegacyDec Mul/Quo
+	Concretize   bool // ask the solver whether a symbolic divisor/factor is forced to one value (grid-drawn operands)
 	Unwind       int
 	Samples      int
 	Seed         int64
@@ -110,6 +111,7 @@ type Exec struct {
 	hashes    map[string][]hashFact
 	beMemo    map[string]Term
 	divMemo   map[string][2]Term
+	constMemo map[string]Term
 	constAtoms map[string]int64
 
 	// statistics
@@ -224,6 +226,7 @@ func (ex *Exec) runOnce(fn *ssa.Function) {
 	ex.hashes = map[string][]hashFact{}
 	ex.beMemo = map[string]Term{}
 	ex.divMemo = map[string][2]Term{}
+	ex.constMemo = map[string]Term{}
 	ex.objSeq = 0
 	ex.auxSeq = 0
 	ex.depth = 0
